@@ -34,6 +34,27 @@ impl<T: FileStore> RecvTransaction<T> {
         }
     }
 
+    /// what has_pdu_to_send() answers for a transaction that is not suspended
+    pub open spec fn wants_to_send(&self) -> bool {
+        match self.recv_state {
+            RecvState::ReceiveData => self.ack.is_some() || self.prompt.is_some() || self.naks@.len() > 0,
+            _ => self.finished.is_some() && self.finished.unwrap().1,
+        }
+    }
+
+    /// the inactivity timer of an active receiver is running
+    pub open spec fn inact_live(&self) -> bool {
+        !self.timer.inactivity.paused || self.state != TransactionState::Active
+    }
+
+    /// C03 "no transaction waits forever": an active receiver always has a PDU to offer to the transport, or a running timer, or a
+    /// delayed NAK check armed - the only things besides a PDU from the peer that wake the transaction loop
+    pub open spec fn alive_inv(&self) -> bool {
+        self.state == TransactionState::Active ==> (self.wants_to_send()
+            || !self.timer.ack.paused || !self.timer.nak.paused || !self.timer.inactivity.paused
+            || self.delayed_nack_timers@.len() > 0)
+    }
+
     /// limits never change, and a count that has reached its limit stays there (pausing only counts, never clears)
     pub open spec fn limits_sticky(&self, o: Self) -> bool {
         &&& self.timer.ack@.max == o.timer.ack@.max && self.timer.inactivity@.max == o.timer.inactivity@.max
@@ -45,7 +66,7 @@ impl<T: FileStore> RecvTransaction<T> {
 
     /// the inactivity counter is as it was, or has been frozen (pause only counts pending expirations and stops)
     pub open spec fn inactivity_kept(&self, o: Self) -> bool {
-        self.timer.inactivity == o.timer.inactivity || self.timer.inactivity.paused
+        self.timer.inactivity == o.timer.inactivity || (self.timer.inactivity.paused && self.state != TransactionState::Active)
     }
 
     /// everything except the received-data bookkeeping and the open staging file
@@ -234,6 +255,7 @@ impl<T: FileStore> RecvTransaction<T> {
         ensures
             final(self).metadata.is_some(),
             final(self).same_except_metadata(*old(self)),
+            old(self).inact_live() ==> final(self).inact_live(),
     {
         unimplemented!()
     }
